@@ -55,7 +55,9 @@ func c18TourA() []tourStep {
 			v, ok := liveVal(w, "ctok", U3)
 			return flows.Confirm(s, "B1", v), ok
 		}),
-		reqStep("login(B1,u3,pw,rm)", "", func(s *world.Stack, w *world.World) (world.Req, bool) { return flows.Login(s, "B1", U3, P3, true), true }),
+		reqStep("login(B1,u3,pw,rm)", "", func(s *world.Stack, w *world.World) (world.Req, bool) {
+			return flows.Login(s, "B1", U3, P3, true), true
+		}),
 		reqStep("prot(B1)", "", func(s *world.Stack, w *world.World) (world.Req, bool) { return flows.Prot("B1"), true }),
 		reqStep("otp-add(B1)", "", func(s *world.Stack, w *world.World) (world.Req, bool) { return flows.OTPAdd(s, "B1"), true }),
 		reqStep("otp-add(B1)#2", "", func(s *world.Stack, w *world.World) (world.Req, bool) { return flows.OTPAdd(s, "B1"), true }),
@@ -65,7 +67,9 @@ func c18TourA() []tourStep {
 			return flows.OTPLogin(s, "B1", U3, v, true), ok
 		}),
 		reqStep("otp-clear(B1)", "", func(s *world.Stack, w *world.World) (world.Req, bool) { return flows.OTPClear(s, "B1"), true }),
-		reqStep("login(B2,u1,pw:wrong)", "", func(s *world.Stack, w *world.World) (world.Req, bool) { return flows.Login(s, "B2", U1, "Wr0ng!pass", false), true }),
+		reqStep("login(B2,u1,pw:wrong)", "", func(s *world.Stack, w *world.World) (world.Req, bool) {
+			return flows.Login(s, "B2", U1, "Wr0ng!pass", false), true
+		}),
 		reqStep("recover-start(B2,u1)", U1, func(s *world.Stack, w *world.World) (world.Req, bool) { return flows.RecoverStart(s, "B2", U1), true }),
 		reqStep("recover-end-get(B2)", "", func(s *world.Stack, w *world.World) (world.Req, bool) {
 			v, ok := liveVal(w, "rtok", U1)
@@ -78,14 +82,22 @@ func c18TourA() []tourStep {
 		envStep(flows.Restart("B1")),
 		reqStep("open(B1)#remember", "", func(s *world.Stack, w *world.World) (world.Req, bool) { return flows.Open("B1"), true }),
 		reqStep("full(B1)", "", func(s *world.Stack, w *world.World) (world.Req, bool) { return flows.Full("B1"), true }),
-		reqStep("oauth-start(B2,google,rm)", "", func(s *world.Stack, w *world.World) (world.Req, bool) { return flows.OAuthStart(s, "B2", "google", "rm=true"), true }),
+		reqStep("oauth-start(B2,google,rm)", "", func(s *world.Stack, w *world.World) (world.Req, bool) {
+			return flows.OAuthStart(s, "B2", "google", "rm=true"), true
+		}),
 		reqStep("oauth-cb(B2,google,own,c:7)", "", func(s *world.Stack, w *world.World) (world.Req, bool) {
 			st := w.Browsers["B2"].Session[authboss.SessionOAuth2State]
 			return flows.OAuthCallback(s, "B2", "google", st, "c:7", ""), st != ""
 		}),
-		reqStep("login(B1,u2,pw:wrong)#1", "", func(s *world.Stack, w *world.World) (world.Req, bool) { return flows.Login(s, "B1", U2, "Wr0ng!pass", false), true }),
-		reqStep("login(B1,u2,pw:wrong)#2-locks", "", func(s *world.Stack, w *world.World) (world.Req, bool) { return flows.Login(s, "B1", U2, "Wr0ng!pass", false), true }),
-		reqStep("login(B1,u2,pw:cur)#locked", "", func(s *world.Stack, w *world.World) (world.Req, bool) { return flows.Login(s, "B1", U2, P2, false), true }),
+		reqStep("login(B1,u2,pw:wrong)#1", "", func(s *world.Stack, w *world.World) (world.Req, bool) {
+			return flows.Login(s, "B1", U2, "Wr0ng!pass", false), true
+		}),
+		reqStep("login(B1,u2,pw:wrong)#2-locks", "", func(s *world.Stack, w *world.World) (world.Req, bool) {
+			return flows.Login(s, "B1", U2, "Wr0ng!pass", false), true
+		}),
+		reqStep("login(B1,u2,pw:cur)#locked", "", func(s *world.Stack, w *world.World) (world.Req, bool) {
+			return flows.Login(s, "B1", U2, P2, false), true
+		}),
 		reqStep("logout(B2)", "", func(s *world.Stack, w *world.World) (world.Req, bool) { return flows.Logout(s, "B2"), true }),
 	}
 }
@@ -118,7 +130,9 @@ func c18TourB(emailAuth bool) []tourStep {
 		reqStep("logout(B1)", "", func(s *world.Stack, w *world.World) (world.Req, bool) { return flows.Logout(s, b), true }),
 		envStep(flows.Advance(61*time.Second)),
 		reqStep("login(B1,u1,pw)#pending", "", func(s *world.Stack, w *world.World) (world.Req, bool) { return flows.Login(s, b, U1, P1, false), true }),
-		reqStep("totp-validate(B1,wrong)", "", func(s *world.Stack, w *world.World) (world.Req, bool) { return flows.TOTPValidate(s, b, "000000", ""), true }),
+		reqStep("totp-validate(B1,wrong)", "", func(s *world.Stack, w *world.World) (world.Req, bool) {
+			return flows.TOTPValidate(s, b, "000000", ""), true
+		}),
 		reqStep("totp-validate(B1,code)", "", func(s *world.Stack, w *world.World) (world.Req, bool) {
 			sec := w.DB.Users[U1].TOTPSecretKey
 			return flows.TOTPValidate(s, b, flows.TOTPCode(w, sec, 0), ""), sec != ""
@@ -160,7 +174,9 @@ func c18TourB(emailAuth bool) []tourStep {
 		reqStep("login(B1,u1,pw)#sms-pending", "", func(s *world.Stack, w *world.World) (world.Req, bool) { return flows.Login(s, b, U1, P1, false), true }),
 		envStep(flows.Advance(11*time.Second)),
 		reqStep("sms-validate(B1,resend)", "", func(s *world.Stack, w *world.World) (world.Req, bool) { return flows.SMSValidate(s, b, "", ""), true }),
-		reqStep("sms-validate(B1,wrong)", "", func(s *world.Stack, w *world.World) (world.Req, bool) { return flows.SMSValidate(s, b, "000000", ""), true }),
+		reqStep("sms-validate(B1,wrong)", "", func(s *world.Stack, w *world.World) (world.Req, bool) {
+			return flows.SMSValidate(s, b, "000000", ""), true
+		}),
 		reqStep("sms-validate(B1,code)", "", func(s *world.Stack, w *world.World) (world.Req, bool) {
 			c := w.Browsers[b].Session["sms_secret"]
 			return flows.SMSValidate(s, b, c, ""), c != ""
@@ -457,9 +473,9 @@ func c18Units(tier string) []engine.Unit {
 func init() {
 	engine.Register(&engine.Property{
 		ID: "C18", Level: "fault_enumeration",
-		Rule: "scripted tours through every handler of every flow (register, confirm, login+rm, protected route, OTP add/login/clear, recover start/middle/end with login-after on and off, remember re-authentication, OAuth2 start/callback, lock-triggering failures, e-mail verify start/end, TOTP setup/qr/confirm/validate by code and by recovery code/remove, SMS setup/confirm/resend/validate/remove, regen); for each request every backend call it makes is failed in turn (generic error, and the interface's not-found sentinel where it has one) under the silent and the 500-writing error handler; oracles: no panic, success implies saved, session on a one-time credential implies durable consumption, credential-acceptance monotonicity (probes on clones); classes = distinct (request kind, backend call, error kind) triples",
-		Units: c18Units,
-		Need:  []string{"fault:db.Load", "fault:db.Save", "fault:db.Create", "fault:hasher.GenerateHash", "fault:renderer.Render", "fault:sms.Send", "fault:db.UseRememberToken", "fault:db.AddRememberToken", "fault:db.LoadByRecoverSelector", "fault:db.LoadByConfirmSelector", "fault:db.SaveOAuth2", "fault:db.DelRememberTokens"},
+		Rule:        "scripted tours through every handler of every flow (register, confirm, login+rm, protected route, OTP add/login/clear, recover start/middle/end with login-after on and off, remember re-authentication, OAuth2 start/callback, lock-triggering failures, e-mail verify start/end, TOTP setup/qr/confirm/validate by code and by recovery code/remove, SMS setup/confirm/resend/validate/remove, regen); for each request every backend call it makes is failed in turn (generic error, and the interface's not-found sentinel where it has one) under the silent and the 500-writing error handler; oracles: no panic, success implies saved, session on a one-time credential implies durable consumption, credential-acceptance monotonicity (probes on clones); classes = distinct (request kind, backend call, error kind) triples",
+		Units:       c18Units,
+		Need:        []string{"fault:db.Load", "fault:db.Save", "fault:db.Create", "fault:hasher.GenerateHash", "fault:renderer.Render", "fault:sms.Send", "fault:db.UseRememberToken", "fault:db.AddRememberToken", "fault:db.LoadByRecoverSelector", "fault:db.LoadByConfirmSelector", "fault:db.SaveOAuth2", "fault:db.DelRememberTokens"},
 		Assumptions: []string{"faults are injected into ServerStorer and its upgrades, Hasher.GenerateHash, ViewRenderer and SMSSender; mailer and client-state store failures are not (the latter is documented to panic in WriteHeader)", "single faults (one failing call per request)"},
 	})
 }
